@@ -86,7 +86,12 @@ def judge(ctx, rng, curve, secret, g, klass, forged, chain_raw):
     if klass == 'manager' and curve != b'BL':
         extra = GO.content(rng, 'transaction')
         try:
-            derived = signed.operation(extra).sign()
+            # half of the time the signed group is the one a user holds after injection: it also carries the hash the node returned
+            parent = signed
+            if rng.random() < 0.5:
+                parent = OperationGroup(context=og.context, contents=g['contents'], branch=g['branch'], chain_id=chain_id, signature=sig, opg_hash=got_hash)
+                ctx.count('derived_from_groups_carrying_opg_hash')
+            derived = parent.operation(extra).sign()
             dsig = derived.signature
             dkinds = [k for k in B.KINDS if dsig.startswith(k[0]) and len(dsig) == k[1]]
             draw = B.decode_check(dsig)[len(dkinds[0][2]):]
